@@ -1,2 +1,221 @@
-(** C17 - theorems under construction. *)
-From Coq Require Import ZArith.
+(** C17 - float field helpers decompose and rebuild every float exactly.
+    Statements only (closed by [exact]); proofs are in proofs/NumFacts.v (pure Z, generic in the
+    format record under the boolean side condition [fmt_ok], which is discharged by computation on
+    the REGENERATED constants F32 / F64 of gen/Consts.v) and proofs/NumFactsFlocq.v (agreement
+    with Flocq's own IEEE-754 decoder and real value). *)
+
+From Coq Require Import ZArith List Bool Reals.
+From Coq Require Import Floats.SpecFloat.
+From Flocq Require Import Core.Core IEEE754.BinarySingleNaN IEEE754.Bits.
+From ML Require Import base.RustSem model.Fmt model.Num model.FloatOps model.Slow gen.Consts proofs.NumFacts proofs.NumFactsFlocq.
+
+Open Scope Z_scope.
+
+Theorem C17_F32_ok :
+  fmt_ok F32 = true.
+Proof. exact F32_ok. Qed.
+
+Theorem C17_F64_ok :
+  fmt_ok F64 = true.
+Proof. exact F64_ok. Qed.
+
+Theorem C17_is_denormal_spec :
+  forall f : format,
+         fmt_ok f = true ->
+         forall x : Z, is_denormal f x = true <-> (x / 2 ^ MANTISSA_SIZE f) mod 2 ^ ewidth f = 0.
+Proof. exact is_denormal_spec. Qed.
+
+Theorem C17_float_exponent_spec :
+  forall f : format,
+         fmt_ok f = true -> forall (b : build) (x : Z), float_exponent f b x = Ok (dec_exp f x).
+Proof. exact float_exponent_spec. Qed.
+
+Theorem C17_float_mantissa_spec :
+  forall f : format,
+         fmt_ok f = true -> forall (b : build) (x : Z), float_mantissa f b x = Ok (dec_mant f x).
+Proof. exact float_mantissa_spec. Qed.
+
+Theorem C17_decompose_value :
+  forall f : format,
+         fmt_ok f = true ->
+         forall x : Z,
+         0 <= x < 2 ^ (fbits f - 1) ->
+         is_finite_bits f x = true ->
+         sf_of_bits f x =
+         (if dec_mant f x =? 0
+          then S754_zero false
+          else S754_finite false (Z.to_pos (dec_mant f x)) (dec_exp f x)).
+Proof. exact decompose_value. Qed.
+
+Theorem C17_decompose_value_neg :
+  forall f : format,
+         fmt_ok f = true ->
+         forall x : Z,
+         2 ^ (fbits f - 1) <= x < 2 ^ fbits f ->
+         is_finite_bits f x = true ->
+         sf_of_bits f x =
+         (if dec_mant f x =? 0
+          then S754_zero true
+          else S754_finite true (Z.to_pos (dec_mant f x)) (dec_exp f x)).
+Proof. exact decompose_value_neg. Qed.
+
+Theorem C17_bits_roundtrip :
+  forall f : format,
+         fmt_ok f = true ->
+         forall x : Z, 0 <= x < 2 ^ fbits f -> is_nan_bits f x = false -> bits_of_sf f (sf_of_bits f x) = x.
+Proof. exact bits_roundtrip. Qed.
+
+Theorem C17_bits_roundtrip_nan :
+  forall f : format,
+         fmt_ok f = true ->
+         forall x : Z,
+         0 <= x < 2 ^ fbits f -> is_nan_bits f x = true -> bits_of_sf f (sf_of_bits f x) = canonical_nan f.
+Proof. exact bits_roundtrip_nan. Qed.
+
+Theorem C17_sf_roundtrip :
+  forall f : format,
+         fmt_ok f = true ->
+         forall s : spec_float,
+         valid_binary (prec f) (emax f) s = true ->
+         sf_of_bits f (bits_of_sf f s) = s /\ 0 <= bits_of_sf f s < 2 ^ fbits f.
+Proof. exact sf_roundtrip. Qed.
+
+Theorem C17_from_bits_spec :
+  forall (f : format) (b : build) (u : Z), 0 <= u < 2 ^ fbits f -> from_bits f b u = Ok u.
+Proof. exact from_bits_spec. Qed.
+
+Theorem C17_from_bits_wide :
+  forall (f : format) (b : build) (u : Z),
+         fbits f = 32 -> 2 ^ 32 <= u -> from_bits f b u = (if dbg b then Panic PkAssert else Ok (u mod 2 ^ 32)).
+Proof. exact from_bits_wide. Qed.
+
+Theorem C17_pack_spec :
+  forall f : format,
+         fmt_ok f = true ->
+         forall (b : build) (e m : Z),
+         0 <= e < 2 ^ ewidth f ->
+         0 <= m < 2 ^ MANTISSA_SIZE f ->
+         extended_to_float f b {| mant := m; exp := e |} = Ok (e * 2 ^ MANTISSA_SIZE f + m) /\
+         exp_field f (e * 2 ^ MANTISSA_SIZE f + m) = e /\
+         frac_field f (e * 2 ^ MANTISSA_SIZE f + m) = m /\ 0 <= e * 2 ^ MANTISSA_SIZE f + m < 2 ^ (fbits f - 1).
+Proof. exact pack_spec. Qed.
+
+Theorem C17_pack_overlap_spec :
+  forall f : format,
+         fmt_ok f = true ->
+         forall (b : build) (r : Z),
+         0 <= r < 2 ^ MANTISSA_SIZE f ->
+         extended_to_float f b {| mant := 2 ^ MANTISSA_SIZE f + r; exp := 1 |} = Ok (2 ^ MANTISSA_SIZE f + r) /\
+         exp_field f (2 ^ MANTISSA_SIZE f + r) = 1 /\ frac_field f (2 ^ MANTISSA_SIZE f + r) = r.
+Proof. exact pack_overlap_spec. Qed.
+
+Theorem C17_pack_infinity :
+  forall f : format,
+         fmt_ok f = true ->
+         forall b : build,
+         extended_to_float f b {| mant := 0; exp := INFINITE_POWER f |} = Ok (EXPONENT_MASK f) /\
+         sf_of_bits f (EXPONENT_MASK f) = S754_infinity false.
+Proof. exact pack_infinity. Qed.
+
+Theorem C17_float_b_spec :
+  forall f : format,
+         fmt_ok f = true ->
+         forall (b : build) (x : Z), float_b f b x = Ok {| mant := dec_mant f x; exp := dec_exp f x |}.
+Proof. exact float_b_spec. Qed.
+
+Theorem C17_float_bh_spec :
+  forall f : format,
+         fmt_ok f = true ->
+         forall (b : build) (x : Z),
+         float_bh f b x = Ok {| mant := 2 * dec_mant f x + 1; exp := dec_exp f x - 1 |}.
+Proof. exact float_bh_spec. Qed.
+
+Theorem C17_bits_order :
+  forall f : format,
+         fmt_ok f = true ->
+         forall x y : Z,
+         0 <= x < 2 ^ (fbits f - 1) ->
+         0 <= y < 2 ^ (fbits f - 1) -> (x <= y <-> sval f x <= sval f y) /\ (x < y <-> sval f x < sval f y).
+Proof. exact bits_order. Qed.
+
+Theorem C17_finite_iff_below_infinity :
+  forall f : format,
+         fmt_ok f = true ->
+         forall x : Z,
+         0 <= x < 2 ^ (fbits f - 1) ->
+         (is_finite_bits f x = true <-> x < EXPONENT_MASK f) /\
+         (is_nan_bits f x = false <-> x <= EXPONENT_MASK f).
+Proof. exact finite_iff_below_infinity. Qed.
+
+Theorem C17_float_helpers_ieee :
+  forall f : format,
+         fmt_ok f = true ->
+         forall (b : build) (x : Z),
+         0 <= x < 2 ^ fbits f ->
+         is_denormal f x = (exp_field f x =? 0) /\
+         float_exponent f b x = Ok (dec_exp f x) /\
+         float_mantissa f b x = Ok (dec_mant f x) /\
+         from_bits f b x = Ok x /\
+         sf_of_bits f x = sf_decode f x /\
+         (is_nan_bits f x = false -> bits_of_sf f (sf_of_bits f x) = x) /\
+         (is_nan_bits f x = true -> bits_of_sf f (sf_of_bits f x) = canonical_nan f).
+Proof. exact float_helpers_ieee. Qed.
+
+Theorem C17_flocq_decoder_agrees :
+  forall f : format,
+         fmt_ok f = true ->
+         forall x : Z,
+         0 <= x < 2 ^ fbits f ->
+         Binary.FF2SF (binary_float_of_bits_aux (MANTISSA_SIZE f) (ewidth f) x) = sf_of_bits f x.
+Proof. exact flocq_decoder_agrees. Qed.
+
+Theorem C17_f64_flocq_of_bits :
+  forall x : Z, 0 <= x < 2 ^ 64 -> Binary.B2SF 53 1024 (b64_of_bits x) = sf_of_bits F64 x.
+Proof. exact f64_flocq_of_bits. Qed.
+
+Theorem C17_f32_flocq_of_bits :
+  forall x : Z, 0 <= x < 2 ^ 32 -> Binary.B2SF 24 128 (b32_of_bits x) = sf_of_bits F32 x.
+Proof. exact f32_flocq_of_bits. Qed.
+
+Theorem C17_f64_flocq_real_value :
+  forall x : Z,
+         0 <= x < 2 ^ 64 ->
+         is_finite_bits F64 x = true ->
+         Binary.B2R 53 1024 (b64_of_bits x) =
+         @F2R radix2 {| Fnum := cond_Zopp (sign_bit F64 x) (dec_mant F64 x); Fexp := dec_exp F64 x |}.
+Proof. exact f64_flocq_real_value. Qed.
+
+Theorem C17_f32_flocq_real_value :
+  forall x : Z,
+         0 <= x < 2 ^ 32 ->
+         is_finite_bits F32 x = true ->
+         Binary.B2R 24 128 (b32_of_bits x) =
+         @F2R radix2 {| Fnum := cond_Zopp (sign_bit F32 x) (dec_mant F32 x); Fexp := dec_exp F32 x |}.
+Proof. exact f32_flocq_real_value. Qed.
+
+
+Print Assumptions C17_F32_ok.
+Print Assumptions C17_F64_ok.
+Print Assumptions C17_is_denormal_spec.
+Print Assumptions C17_float_exponent_spec.
+Print Assumptions C17_float_mantissa_spec.
+Print Assumptions C17_decompose_value.
+Print Assumptions C17_decompose_value_neg.
+Print Assumptions C17_bits_roundtrip.
+Print Assumptions C17_bits_roundtrip_nan.
+Print Assumptions C17_sf_roundtrip.
+Print Assumptions C17_from_bits_spec.
+Print Assumptions C17_from_bits_wide.
+Print Assumptions C17_pack_spec.
+Print Assumptions C17_pack_overlap_spec.
+Print Assumptions C17_pack_infinity.
+Print Assumptions C17_float_b_spec.
+Print Assumptions C17_float_bh_spec.
+Print Assumptions C17_bits_order.
+Print Assumptions C17_finite_iff_below_infinity.
+Print Assumptions C17_float_helpers_ieee.
+Print Assumptions C17_flocq_decoder_agrees.
+Print Assumptions C17_f64_flocq_of_bits.
+Print Assumptions C17_f32_flocq_of_bits.
+Print Assumptions C17_f64_flocq_real_value.
+Print Assumptions C17_f32_flocq_real_value.
